@@ -321,6 +321,32 @@ example : MacroTextOK [104] [49] [76] [114] [84, 49] (.prodRoot [[112], mFLAVOR,
   · rcases hs with rfl | rfl <;>
       exact cc _ (by decide) (by decide) (by decide) (by decide) (by decide) (by decide) (by decide) (by decide)
 
+/-! ## Stacks reached through a symbolic link
+
+`VersionFile.write` is the one place on the declaration path that resolves symbolic links (`os.path.realpath` of
+`trimDir` and of each absolute value; `isSubpath` compares the resolved paths).  `declareRecR real` / `trimKeyR real` are
+the model with `real` = `os.path.realpath` as a parameter (`realOf links` for a tree whose symbolic links are `links`); the
+correspondence runs it with the link of the EUPS_PATH entry, for arguments typed through the link and for arguments
+typed by their real paths. -/
+
+/-- Without symbolic links the link-aware model is the model of all the theorems above. -/
+theorem C16_links_none (ex : Path → Bool) (who now : Str) (vr : VRec) (p : Record.Prod) :
+    declareRecR id ex who now vr p = declareRec ex who now vr p :=
+  declareRecR_id ex who now vr p
+
+/-- **One spelling suffices**: the stack is reached through the symbolic link `l → t`.  For a value `l/a` and a
+directory `l/b` both spelled through the link, the test that `VersionFile.write` makes on the *resolved* paths
+(`t/a` below `t/b`, and what remains) is the test on the spellings — so everything proved about a stack at `l` holds
+for the stack behind the link, and the record does not depend on where the link points. -/
+theorem C16_link_spelling (l t a b : List Str) :
+    (realOf [(absP l, absP t)] (absP (l ++ a))).under (realOf [(absP l, absP t)] (absP (l ++ b)))
+      = (absP (l ++ a)).under (absP (l ++ b)) :=
+  realOf_under l t a b
+
+/-- Non-vacuity / what resolving does: `/sw/stack/Linux/p` with `/sw/stack → /disk3/stack` is `/disk3/stack/Linux/p`. -/
+example : realOf [(absP [[115, 119], [115]], absP [[100, 51], [115]])] (absP [[115, 119], [115], [76], [112]])
+    = absP [[100, 51], [115], [76], [112]] := by decide
+
 /-! ## End to end -/
 
 /-- **Relocation through the text of the record**: `Database.declare` into an empty version file with the stack at
